@@ -88,7 +88,9 @@ func (runInfo *runInfoStruct) invokeComparisonOperator(operator *ast.ComparisonO
 	if runInfo.rv.Kind() == reflect.Interface && !runInfo.rv.IsNil() {
 		runInfo.rv = runInfo.rv.Elem()
 	}
-	lhsV := runInfo.rv
+	// the left operand is the value read now, also when it is an element or a field
+	// that the right operand goes on to change
+	lhsV := heldValue(runInfo.rv)
 
 	runInfo.expr = operator.RHS
 	runInfo.invokeExpr()
@@ -153,7 +155,9 @@ func (runInfo *runInfoStruct) invokeAddOperator(operator *ast.AddOperator) {
 	if runInfo.rv.Kind() == reflect.Interface && !runInfo.rv.IsNil() {
 		runInfo.rv = runInfo.rv.Elem()
 	}
-	lhsV := runInfo.rv
+	// the left operand is the value read now, also when it is an element or a field
+	// that the right operand goes on to change
+	lhsV := heldValue(runInfo.rv)
 
 	runInfo.expr = operator.RHS
 	runInfo.invokeExpr()
@@ -233,7 +237,9 @@ func (runInfo *runInfoStruct) invokeMultiplyOperator(operator *ast.MultiplyOpera
 	if runInfo.rv.Kind() == reflect.Interface && !runInfo.rv.IsNil() {
 		runInfo.rv = runInfo.rv.Elem()
 	}
-	lhsV := runInfo.rv
+	// the left operand is the value read now, also when it is an element or a field
+	// that the right operand goes on to change
+	lhsV := heldValue(runInfo.rv)
 
 	runInfo.expr = operator.RHS
 	runInfo.invokeExpr()
